@@ -27,10 +27,16 @@ PROP = "C17"
 
 FLAG_NAMES = ["FilterNoop", "InactiveMachIdx", "AllowInverted", "SkipOldest", "GcKeepsLess",
               "GormNoGc", "GormBadColumns", "KvNoResume", "KvMTimeMachIdx"]
-# the specification models the tree AS IT IS (all defects reproduced on the
-# real code, see the final report / findings); flip a flag to FALSE when the
-# corresponding fix lands in /repo
-ASIS = {f: True for f in FLAG_NAMES}
+# the specification models the tree AS IT IS: a flag is TRUE while the defect it
+# models is in /repo (known finding), FALSE once the fix has landed.
+#   repaired (fix: commits, C17 follow-up): FilterNoop, InactiveMachIdx,
+#   AllowInverted, SkipOldest, GcKeepsLess, KvNoResume, KvMTimeMachIdx
+#   GormBadColumns (optional patch 07)
+#   still in the tree (known findings): GormNoGc
+ASIS = {f: False for f in FLAG_NAMES}
+ASIS.update(GormNoGc=True)
+# the tree before the follow-up fixes (kept for the record / for bisecting)
+PINNED = {f: True for f in FLAG_NAMES}
 FIXED = {f: False for f in FLAG_NAMES}
 
 INVS = ["Inv_OneRecordPerMatch", "Inv_Bounded", "Inv_KeepsNewest", "Inv_QueryExact",
@@ -52,10 +58,10 @@ def mc_plan(tier):
         holds += [
             ("memory: all list configurations, 3 transitions",
              mc_consts(FIXED, "memory", 3, lists=True, mb=1)),
-            ("memory: every query (<=1 state condition) after every history of 4",
-             mc_consts(FIXED, "memory", 4, queries=True, mb=1)),
-            ("bbolt: all list configurations, 3 transitions",
-             mc_consts(FIXED, "bbolt", 3, lists=True, mm=1, mb=1)),
+            ("memory: every query (<=1 state condition) after every history of 3",
+             mc_consts(FIXED, "memory", 3, queries=True, mb=1)),
+            ("bbolt: all list configurations, 2 transitions",
+             mc_consts(FIXED, "bbolt", 2, lists=True, mm=1, mb=1)),
             ("bbolt: queue/flush/GC race, Max 1..2, batch 1..2, 4 steps",
              mc_consts(FIXED, "bbolt", 4)),
             ("bbolt: every query (<=1 state condition) after every history of 3",
@@ -80,26 +86,27 @@ def mc_plan(tier):
             ("gorm: every query (<=1 state condition) after every history of 3",
              mc_consts(FIXED, "gorm", 3, queries=True, mb=1)),
         ]
-    # predictions of the as-is model: one invariant each, TLC stops at the
-    # first counterexample
-    preds += [
-        ("memory FindLatest state filters are no-ops", mc_consts(ASIS, "memory", 3, queries=True, mb=1),
-         "Inv_QueryExact"),
-        ("bbolt/badger allow-lists inverted", mc_consts(ASIS, "bbolt", 2, lists=True, mm=1, mb=1),
-         "Inv_OneRecordPerMatch"),
-        ("bbolt/badger GC keeps MaxRecords-1", mc_consts(ASIS, "bbolt", 5, mm=1, mb=1),
-         "Inv_KeepsNewest"),
+    # predictions of the as-is model for the defects still in the tree: one
+    # invariant each, TLC stops at the first counterexample
+    cand = [
+        ("FilterNoop", "memory FindLatest state filters are no-ops",
+         mc_consts(ASIS, "memory", 3, queries=True, mb=1), "Inv_QueryExact", True),
+        ("AllowInverted", "bbolt/badger allow-lists inverted",
+         mc_consts(ASIS, "bbolt", 2, lists=True, mm=1, mb=1), "Inv_OneRecordPerMatch", True),
+        ("GcKeepsLess", "bbolt/badger GC keeps MaxRecords-1",
+         mc_consts(ASIS, "bbolt", 5, mm=1, mb=1), "Inv_KeepsNewest", True),
+        ("SkipOldest", "bbolt/badger FindLatest: oldest record skipped",
+         mc_consts(ASIS, "bbolt", 3, queries=True, mb=1), "Inv_QueryExact", False),
+        ("GormNoGc", "gorm never garbage-collects",
+         mc_consts(ASIS, "gorm", 6, mm=1, mb=1), "Inv_Bounded", True),
+        ("AllowInverted", "gorm Called allow-list inverted",
+         mc_consts(ASIS, "gorm", 2, lists=True, mm=1, mb=1), "Inv_OneRecordPerMatch", False),
+        ("GormBadColumns", "gorm FindLatest: missing columns",
+         mc_consts(ASIS, "gorm", 3, queries=True, mb=1), "Inv_QueryExact", True),
     ]
-    if tier != "quick":
-        preds += [
-            ("bbolt/badger FindLatest: no-op filters, oldest record skipped",
-             mc_consts(ASIS, "bbolt", 3, queries=True, mb=1), "Inv_QueryExact"),
-            ("gorm never garbage-collects", mc_consts(ASIS, "gorm", 6, mm=1, mb=1), "Inv_Bounded"),
-            ("gorm Called allow-list inverted", mc_consts(ASIS, "gorm", 2, lists=True, mm=1, mb=1),
-             "Inv_OneRecordPerMatch"),
-            ("gorm FindLatest: missing columns", mc_consts(ASIS, "gorm", 3, queries=True, mb=1),
-             "Inv_QueryExact"),
-        ]
+    for flag, label, consts, inv, in_quick in cand:
+        if ASIS[flag] and (in_quick or tier != "quick"):
+            preds.append((label, consts, inv))
     return holds, preds
 
 
@@ -137,7 +144,8 @@ def run_mc(tier, rep):
             raise Inconclusive("the REPAIRED specification violates %s in '%s':\n%s" % (
                 list(r["violated"]), label, r["out"][-3000:]))
         if r["timed_out"] or not r["completed"]:
-            raise Inconclusive("TLC did not finish '%s' within %ds" % (label, to))
+            raise Inconclusive("TLC did not finish '%s' (rc=%s, timed_out=%s, limit %ds):\n%s" % (
+                label, r["rc"], r["timed_out"], to, r["out"][-1500:]))
         states += r["distinct"]
         trans += r["states"]
     rep.coverage["mc_runs"] = runs
@@ -151,7 +159,7 @@ def run_mc(tier, rep):
 
 PLANS = {
     # (cases, max mutations, backends, crash points)
-    "quick": [(220, 8, "memory,bbolt", False)],
+    "quick": [(200, 8, "memory,bbolt", False)],
     "thorough": [(2500, 8, "memory,bbolt", False),
                  (500, 8, "memory,bbolt,badger,gorm", True)],
 }
@@ -192,6 +200,10 @@ def signature(v, ev, backend):
             cond = cls
         elif cls == "includes":
             cond = detail
+        elif cls == "omits" and detail not in ("oldest", "mtime", "tdiff"):
+            # which condition kinds the query carried is in the text; the
+            # signature only separates the modelled causes
+            cond = "omits"
         else:
             cond = "%s:%s" % (cls, detail)
         return dict(formula=formula, backend=backend, fn=ev["fn"], cond=cond)
